@@ -922,3 +922,144 @@ func (s *sx) String() string {
 	}
 	return open + strings.Join(parts, " ") + close
 }
+
+// macroOperandDirectRule (C17): an operand of a library macro is evaluated where the macro call stands, by the
+// special forms the macro expands to. An expansion that wraps an operand into a function and hands that
+// function to a header function which reaches it through a builtin (apply, map, reduce ...) has the operand's
+// error come back through that builtin: the evaluator positions a builtin's error at the call form, which for a
+// call written in the header is a line of the header - another module than the program's.
+func macroOperandDirectRule(w *World, r *Report, rule string) {
+	r.rule(rule, "in the expansion of the library macros and, or, cond, when, if-not (symbolic expander over the embedded headers, operands opaque) no operand is wrapped in a (fn …) that is handed to a function of the headers whose body calls on through apply, map, reduce, swap! or eval: an operand's error does not travel through a builtin call written in the header, where it would be positioned at the header's line")
+	mw, where, err := headerMacros(w)
+	if err != nil {
+		r.undecided(rule, nil, "lisp headers", token.NoPos, err.Error())
+		return
+	}
+	var root *lenv
+	for _, m := range mw.macros {
+		root = m.env
+		break
+	}
+	via := func(name string) string {
+		if root == nil {
+			return ""
+		}
+		seen := map[string]bool{}
+		var look func(n string, depth int) string
+		look = func(n string, depth int) string {
+			v, ok := root.vars[n]
+			f, isFn := v.(*lfn)
+			if !ok || !isFn || seen[n] || depth > 3 {
+				return ""
+			}
+			seen[n] = true
+			found := ""
+			for _, b := range f.body {
+				b.walk(func(x *sx) {
+					if found != "" || x.kind != "list" || len(x.items) == 0 {
+						return
+					}
+					switch h := x.head(); h {
+					case "apply", "map", "reduce", "swap!", "eval", "filter":
+						found = h
+					default:
+						if h != n {
+							if s := look(h, depth+1); s != "" {
+								found = s
+							}
+						}
+					}
+				})
+			}
+			return found
+		}
+		return look(name, 0)
+	}
+	var expand func(f *sx, depth int) (*sx, error)
+	expand = func(f *sx, depth int) (*sx, error) {
+		if depth > 40 {
+			return nil, fmt.Errorf("expansion too deep")
+		}
+		if f == nil || len(f.items) == 0 {
+			return f, nil
+		}
+		if f.kind == "list" {
+			if f.head() == "quote" {
+				return f, nil
+			}
+			if m, ok := mw.macros[f.head()]; ok {
+				exp, err := mw.apply(m, f.items[1:])
+				if err != nil {
+					return nil, fmt.Errorf("expanding (%s …): %v", f.head(), err)
+				}
+				es, ok := exp.(*sx)
+				if !ok {
+					return nil, fmt.Errorf("macro %s expands to a function value", f.head())
+				}
+				return expand(es, depth+1)
+			}
+		}
+		out := &sx{kind: f.kind, text: f.text}
+		for _, it := range f.items {
+			e, err := expand(it, depth+1)
+			if err != nil {
+				return nil, err
+			}
+			out.items = append(out.items, e)
+		}
+		return out, nil
+	}
+	n := 0
+	for _, name := range []string{"and", "or", "cond", "when", "if-not"} {
+		if _, ok := mw.macros[name]; !ok {
+			continue
+		}
+		for _, nops := range []int{2, 3, 4} {
+			var items []*sx
+			var targets []string
+			for i := 0; i < nops; i++ {
+				t := fmt.Sprintf("operand%d", i+1)
+				items = append(items, symSx(t))
+				targets = append(targets, t)
+			}
+			if (name == "if-not" && nops > 3) || (name == "cond" && nops%2 == 1) {
+				continue
+			}
+			mw.steps, mw.gens = 0, 0
+			form := listSx(append([]*sx{symSx(name)}, items...)...)
+			construct := fmt.Sprintf("(%s …) with %d operands", name, nops)
+			exp, err := expand(form, 0)
+			if err != nil {
+				r.addRaw(rule, where[name], construct, where[name], "undecided", "the symbolic expander cannot expand this macro: "+err.Error())
+				continue
+			}
+			n++
+			bad := ""
+			exp.walk(func(c *sx) {
+				if bad != "" || c.kind != "list" || len(c.items) < 2 || c.items[0].kind != "sym" {
+					return
+				}
+				b := via(c.head())
+				if b == "" {
+					return
+				}
+				for _, a := range c.items[1:] {
+					if a.head() != "fn" {
+						continue
+					}
+					for _, t := range targets {
+						if containsSym(a, t) {
+							bad = fmt.Sprintf("%s is wrapped in a function handed to (%s …), which goes on through (%s …)", t, c.head(), b)
+						}
+					}
+				}
+			})
+			if bad != "" {
+				r.addRaw(rule, where[name], construct, where[name], "violated", bad+": an error of the operand comes back through that builtin and is positioned at the builtin's call form in the header, not at the operand in the program")
+			} else {
+				r.addRaw(rule, where[name], construct, where[name], "discharged", "no operand is handed to a header function inside a function value")
+			}
+		}
+	}
+	r.floor(rule, "expansions of library macros examined", n, 6)
+}
